@@ -1263,6 +1263,22 @@ static void build_large (int thorough, const char *which)
 		}
 	}
 	if (strstr (which, "ldpc")) {
+		/* low rates with even N1 whose number of extra entries 2(n-k) - N1*k is next to 2^8 / 2^9 (thorough: 2^16): counters of every width */
+		static const int EX[] = {254, 256, 258, 512, 65536};
+		int k, N1, ei;
+		for (N1 = 4; N1 <= 6; N1 += 2) for (k = 3; k <= 5; k++) for (ei = 0; ei < 5; ei++) {
+			int r = (EX[ei] + N1 * k) / 2, n = k + r, step;
+			if (EX[ei] > 60000 && (!thorough || k != 4)) continue;
+			if (!thorough && ((k + ei + N1 / 2) % 3) && EX[ei] != 256) continue;
+			c0 = NCF; add_cfg (3, 0, k, r, N1, 1 + ei, 4, 0, 0, 0);
+			add_scen (c0, "Aa-,F"); add_scen (c0, "Sa-,F"); add_scen (c0, "Ba-"); add_scen (c0, "Ra-,F"); add_scen (c0, "Sw%d+%d,F", k, r); add_scen (c0, "Bw%d+%d", k, r); add_scen (c0, "Sp2.0,F"); add_scen (c0, "Rp2.1,F");
+			for (a = 0; a < k; a++) { add_scen (c0, "Aa-%d,F", a); add_scen (c0, "Ba-%d", a); add_scen (c0, "Za-%d", a); }
+			step = n > 1000 ? n / 7 : 29;
+			for (a = k; a < n; a += step) { add_scen (c0, "Bw%d+%d,F", a, k + 3); add_scen (c0, "Sw%d+%d,F", a, 2 * k + 1); }
+			add_scen (c0, "Bw%d+%d", n - 6, 6); add_scen (c0, "Aw%d+%d", n - 6, 6);
+		}
+	}
+	if (strstr (which, "ldpc")) {
 		static const int kr[][2] = {{100, 50}, {1000, 500}, {40, 20}, {255, 64}, {1000, 10}, {700, 6}, {3000, 12}, {200, 100}, {300, 40}, {90, 264}, {60, 300}, {600, 520}};	/* the last two: more than 256 repair symbols (long peeling chains) */	/* the last three: equations with more than 255 symbols */
 		for (i = 0; i < (int) (sizeof kr / sizeof kr[0]); i++) {
 			int k = kr[i][0], r = kr[i][1], n = k + r, N1;
